@@ -1,6 +1,14 @@
 //! Virtual time: the harness binary defines `clock_gettime`, which interposes the libc symbol
 //! used by `SystemTime::now()`.  While `VIRTUAL` is false the real clock is read via the raw syscall.
+use std::collections::VecDeque;
 use std::sync::atomic::{AtomicBool, AtomicU64, Ordering};
+use std::sync::Mutex;
+
+/// every reading of the virtual clock, in order (drained by the recorder)
+pub static READINGS: Mutex<Vec<u64>> = Mutex::new(Vec::new());
+/// scripted readings (replay): while non-empty the next reading is popped from here
+pub static SCRIPT: Mutex<VecDeque<u64>> = Mutex::new(VecDeque::new());
+pub static RECORD: AtomicBool = AtomicBool::new(false);
 
 pub static VIRTUAL: AtomicBool = AtomicBool::new(false);
 /// nanoseconds since the epoch
@@ -8,7 +16,7 @@ pub static NOW_NS: AtomicU64 = AtomicU64::new(0);
 /// every reading of the virtual clock advances it by this much (0 = frozen between explicit steps)
 pub static TICK_NS: AtomicU64 = AtomicU64::new(0);
 
-pub const BASE_NS: u64 = 1_700_000_000_000_000_000;
+pub const BASE_NS: u64 = 1_000_000_000_000;
 
 #[repr(C)]
 pub struct Timespec {
@@ -19,8 +27,19 @@ pub struct Timespec {
 #[no_mangle]
 pub unsafe extern "C" fn clock_gettime(clk: i32, ts: *mut Timespec) -> i32 {
     if VIRTUAL.load(Ordering::SeqCst) {
-        let tick = TICK_NS.load(Ordering::SeqCst);
-        let now = NOW_NS.fetch_add(tick, Ordering::SeqCst) + tick;
+        let scripted = SCRIPT.lock().ok().and_then(|mut q| q.pop_front());
+        let now = if let Some(t) = scripted {
+            NOW_NS.store(t, Ordering::SeqCst);
+            t
+        } else {
+            let tick = TICK_NS.load(Ordering::SeqCst);
+            NOW_NS.fetch_add(tick, Ordering::SeqCst) + tick
+        };
+        if RECORD.load(Ordering::SeqCst) {
+            if let Ok(mut r) = READINGS.lock() {
+                r.push(now);
+            }
+        }
         (*ts).tv_sec = (now / 1_000_000_000) as i64;
         (*ts).tv_nsec = (now % 1_000_000_000) as i64;
         0
@@ -50,4 +69,13 @@ pub fn to_ns(t: std::time::SystemTime) -> u64 {
 }
 pub fn from_ns(ns: u64) -> std::time::SystemTime {
     std::time::UNIX_EPOCH + std::time::Duration::from_nanos(ns)
+}
+
+pub fn take_readings() -> Vec<u64> {
+    READINGS.lock().map(|mut r| std::mem::take(&mut *r)).unwrap_or_default()
+}
+pub fn set_script(v: Vec<u64>) {
+    if let Ok(mut q) = SCRIPT.lock() {
+        *q = v.into();
+    }
 }
